@@ -237,6 +237,8 @@ def parse_obs(o):
             res.setdefault("adjraw", {})[it[1]] = {e[0].split("#")[0]: (e[1] if len(e) > 1 else "") for e in it[2:]}
         elif it[0] == "summary":
             res["summary"] = {(e[0] if e[0] == "global" else e[1]): [int(x) if str(x).isdigit() else x for x in (e[1:] if e[0] == "global" else e[2:])] for e in it[1:]}
+        elif it[0] == "watch":
+            res["watch"] = {e[0]: (e[1], e[2] if len(e) > 2 else "") for e in it[1:]}
         elif it[0] == "lookup":
             res["lookup"] = {(e[0], e[1]): sorted(e[2:]) for e in it[1:]}
         elif it[0] == "adjin":
@@ -462,7 +464,7 @@ def sim_line(sc):
             steps.append("(obs)")
     opts = {"ibgp": "", "rr": " rr", "ebgp": ""}
     peers_sx = " ".join("(%s %s %d%s%s)" % (p.name, p.addr, p.asn, opts[p.kind], " apsend=%d" % p.sendmax if p.sendmax else "") for p in sc["peers"])
-    return "(sim (global %d %s sync) (peers %s) (steps %s))" % (LOCAL_AS, ROUTER_ID, peers_sx, " ".join(steps))
+    return "(sim (global %d %s sync%s) (peers %s) (steps %s))" % (LOCAL_AS, ROUTER_ID, " watch" if sc.get("watch") else "", peers_sx, " ".join(steps))
 
 
 def attrs_sx(a, nh):
@@ -555,6 +557,7 @@ def canon_impl(sc, out):
             d.setdefault("best", {})[pf] = [i for i, p in enumerate(paths) if p["best"]]
         d["summary"] = o.get("summary")
         d["lookup"] = o.get("lookup")
+        d["watch"] = o.get("watch")
         res.append(d)
     return res, markers
 
